@@ -59,8 +59,9 @@ SHAPES = ["all-discrete", "mixed", "discrete-only-in-constraint"]
 def decls_for(domain, odd_bounds=False, via=None):
     kw = {"dom": domain}
     if domain == "integer":
-        kw.update(lb=0.0, ub=3.0)
-    elif odd_bounds:
+        # "fractional": the relaxation's optimum sits on a fractional bound (rounding the box inwards is not the relaxation)
+        kw.update(lb=0.5, ub=2.75) if odd_bounds == "fractional" else kw.update(lb=0.0, ub=3.0)
+    elif odd_bounds in (True, "odd"):
         kw.update(lb=-5.0, ub=7.0)  # binary must still come out as [0, 1]
     return [
         {"k": "var", "name": "t", "lb": 0.0, "ub": 2.0},
@@ -139,7 +140,13 @@ def make_problem(route, domain, shape, nonlinear, odd):
     else:
         obj = tt
         cons.append(["rel", ">=", ["bin", "+", lin_all, t], ["raw", 1.25, "float"], "direct"])
-    return {"decls": decls, "objective": obj, "sense": "min", "constraints": cons}, els
+    prob = {"decls": decls, "objective": obj, "sense": "min", "constraints": cons}
+    if odd in ("pinned-some", "pinned-all"):
+        # discrete variables fixed through their bounds after the model was written (a branch-and-bound node): still discrete
+        pin = els[:1] if odd == "pinned-some" else els
+        val = 1.0 if domain == "binary" else 2.0
+        prob["bound_edits"] = {nm: [val, val] for nm in pin if not nm.startswith("_diag_")}
+    return prob, els
 
 
 def info(tier):
@@ -152,7 +159,7 @@ def info(tier):
         "(problem, method) hashes",
         "required_cells": [f"route:{r}" for r in ROUTES] + [f"method:{m}" for m in METHODS] + [f"shape:{s}" for s in SHAPES]
         + ["domain:integer", "domain:binary", "strict-raises", "warning-names", "relaxation-equals-twin", "binary-bounds", "view-domain",
-                             "repeat:strict-after-solve", "repeat:warning-after-solve"],
+                             "repeat:strict-after-solve", "repeat:warning-after-solve", "bounds:plain", "bounds:odd", "bounds:fractional", "bounds:pinned-some", "bounds:pinned-all"],
         "assumptions": ["the relaxation twin is the same recipe with domain=continuous (binary -> [0,1]) solved in the twin process with the same method"],
     }
 
@@ -187,7 +194,7 @@ def run_cell(rec, seams, twin, route, domain, shape, method, nonlinear, odd):
     except Exception as ex:
         bad("build-raises:" + type(ex).__name__, error=repr(ex)[:200])
         return
-    for c in (f"route:{route}", f"method:{method}", f"shape:{shape}", f"domain:{domain}"):
+    for c in (f"route:{route}", f"method:{method}", f"shape:{shape}", f"domain:{domain}", "bounds:" + (odd if isinstance(odd, str) else ("odd" if odd else "plain"))):
         rec.cmp(1, c)
 
     # --- binary bounds and view domains ---------------------------------------
@@ -201,7 +208,7 @@ def run_cell(rec, seams, twin, route, domain, shape, method, nonlinear, odd):
         if v.domain != dom_of(nm):
             bad("domain-lost-or-changed", name=nm, got=v.domain, want=dom_of(nm))
             return
-        if v.domain == "binary":
+        if v.domain == "binary" and nm not in (prob.get("bound_edits") or {}):  # (a bound the user edited afterwards is the user's)
             rec.cmp(1, "binary-bounds")
             if (v.lb, v.ub) != (0.0, 1.0):
                 bad("binary-variable-without-unit-bounds", name=nm, got=[v.lb, v.ub])
@@ -340,7 +347,10 @@ def run(ctx, rec):
                             if rec.out_of_time():
                                 rec.inconclusive.append("time budget reached before the cell matrix was finished")
                                 return
-                            run_cell(rec, seams, twin, route, domain, shape, method, nonlinear, odd=(domain == "binary" and i % 2 == 0))
+                            modes = ["plain", "fractional", "pinned-some", "pinned-all"] if domain == "integer" else ["plain", "odd", "pinned-some", "pinned-all"]
+                            bm = modes[(i // 3 + mi) % 4]
+                            rec.cells["bounds:" + bm] += 0
+                            run_cell(rec, seams, twin, route, domain, shape, method, nonlinear, odd=(False if bm == "plain" else bm))
                             if rec.inconclusive:
                                 return
     finally:
